@@ -559,15 +559,19 @@ def chacha_diagnose(spec, exp, got):
     start_ctr = spec["counter"] if spec["ctr_mode"] else 0
     lo = start_ctr & 0xFFFFFFFF
     base = 0 if spec["api"] != API_ONESHOT else off      # one-shot calls restart the key stream
-    if lo and (i - base) // 64 == (1 << 32) - lo:
-        return "counter-carry"              # first wrong byte lies in the block right after the low word wrapped
+    # the block generated right after the low counter word wrapped
+    wrapblk = bool(lo) and (i - base) // 64 == (1 << 32) - lo
+    if wrapblk and (i - base) % 64 == 0:
+        return "counter-carry"
     null = spec["src_mode"] == SRC_NULL
     d = sa if spec["src_mode"] == SRC_INPLACE else da
     if spec["api"] == API_BLOCKS:
-        return "blocks-" + path_of(sa, d, null)
+        return "counter-carry" if wrapblk else "blocks-" + path_of(sa, d, null)
     avail = (64 - off % 64) % 64 if spec["api"] == API_STREAM else 0
     if rel < avail:
         return "stream-carry-over"          # bytes served from the key stream saved by the previous call
+    if wrapblk:
+        return "counter-carry"
     nbulk = (ln - avail) // 64
     if rel - avail < 64 * nbulk:
         return "blocks-" + path_of(sa + avail, d + avail, null)
